@@ -87,7 +87,7 @@ theorem ll_LQ_mono {line0 : Int} {n n' : Nat} (hn : n' ≤ n) {x y : LineOutcome
 
 theorem ll_open_p2 (hP : PSim F b Cov) (hO : OpenBlocksSim F b Cov) (openedBlocks : List Block) (lastIndex i : Int)
     (blank : Bool) (bla blb : List LineStat) (thisParent : Nat) (line0 : Int) {sA sB : St}
-    (h : SR F b sA sB) (hai : AI Cov sA) (hline : HasLine b sA) (hst : StatsRel F bla blb) (hl0 : line0 ≤ sA.r.line) :
+    (h : SR F b sA sB) (hai : AI Cov sA) (hline : HL b sA) (hst : StatsRel F bla blb) (hl0 : line0 ≤ sA.r.line) :
     P2 (LQ F b Cov line0 bla.length) (llOpen openedBlocks lastIndex i blank bla thisParent sA)
       (llOpen (openedBlocks.map (shB F)) lastIndex i blank blb (F.ι thisParent) sB) := by
   unfold llOpen
@@ -111,7 +111,7 @@ theorem ll_open_p2 (hP : PSim F b Cov) (hO : OpenBlocksSim F b Cov) (openedBlock
 
 theorem ll_fall_p2 (hP : PSim F b Cov) (hO : OpenBlocksSim F b Cov) (parent : Nat) (openedBlocks : List Block)
     (lastIndex i lnA lnB : Int) (bla blb : List LineStat) (line0 : Int) {sA sB : St}
-    (h : SR F b sA sB) (hai : AI Cov sA) (hline : HasLine b sA) (hst : StatsRel F bla blb) (hl0 : line0 ≤ sA.r.line)
+    (h : SR F b sA sB) (hai : AI Cov sA) (hline : HL b sA) (hst : StatsRel F bla blb) (hl0 : line0 ≤ sA.r.line)
     (hbl : isBlankLine (lnB - 1) i blb = isBlankLine (lnA - 1) i bla) :
     P2 (LQ F b Cov line0 bla.length) (llFall parent openedBlocks lastIndex i lnA bla sA)
       (llFall (F.ι parent) (openedBlocks.map (shB F)) lastIndex i lnB blb sB) := by
@@ -128,15 +128,17 @@ theorem ll_fall_p2 (hP : PSim F b Cov) (hO : OpenBlocksSim F b Cov) (parent : Na
     exact ll_open_p2 hP hO openedBlocks lastIndex i _ bla blb parent line0 h hai hline hst hl0
 
 theorem ll_body_p2 (hP : PSim F b Cov) (hNL : NL b) (hO : OpenBlocksSim F b Cov)
-    (hcl : ∀ bp, Cov bp → ∀ node s s' st, HasLine b s → bpContinue bp node s = .ok (st, s') → st.cont = false →
-      HasLine b s')
-    (hcn : ∀ bp, Cov bp → ∀ node s s' st, HasLine b s → bpContinue bp node s = .ok (st, s') → st.cont = true →
-      st.hasChildren = false → HasLine b s') (parent : Nat)
+    (hcl : ∀ bp, Cov bp → ∀ node s s' st, HL b s → bpContinue bp node s = .ok (st, s') → st.cont = false →
+      HL b s')
+ (parent : Nat)
     (openedBlocks : List Block) (lastIndex : Int) (bp : BP) (node : Nat) (rest : List Block)
     (i lnA lnB : Int) (bla blb : List LineStat) (line0 : Int) {sA sB : St}
     (h : SR F b sA sB) (hai : AI Cov sA) (hst : StatsRel F bla blb) (hl0 : line0 ≤ sA.r.line)
-    (hbl : isBlankLine (lnB - 1) i blb = isBlankLine (lnA - 1) i bla) (hbp : Cov bp) (hline : HasLine b sA)
-    (hrec : ∀ sA' sB', SR F b sA' sB' → AI Cov sA' → HasLine b sA' → line0 ≤ sA'.r.line → sA.r.line ≤ sA'.r.line →
+    (hbl : isBlankLine (lnB - 1) i blb = isBlankLine (lnA - 1) i bla) (hbp : Cov bp) (hline : HL b sA)
+    (hlf : rest ≠ [] → bp.isContainer = true)
+    (hcont : bp.isContainer = true → ∀ node s s' (st : PState),
+      bpContinue bp node s = .ok (st, s') → st.cont = true → st.hasChildren = true)
+    (hrec : ∀ sA' sB', SR F b sA' sB' → AI Cov sA' → HL b sA' → line0 ≤ sA'.r.line → sA.r.line ≤ sA'.r.line →
       P2 (LQ F b Cov line0 bla.length) (lineLoop parent openedBlocks lastIndex rest (i + 1) bla sA')
         (lineLoop (F.ι parent) (openedBlocks.map (shB F)) lastIndex (rest.map (shB F)) (i + 1) blb sB')) :
     P2 (LQ F b Cov line0 bla.length) (llBody parent openedBlocks lastIndex bp node rest i lnA bla sA)
@@ -147,31 +149,46 @@ theorem ll_body_p2 (hP : PSim F b Cov) (hNL : NL b) (hO : OpenBlocksSim F b Cov)
   rw [shN_kind]
   by_cases hk : (n.kind != Kind.paragraph) = true
   · rw [if_pos hk, if_pos hk]
-    have hkeep : ∀ a sA', bpContinue bp node sA1 = .ok (a, sA') → HasLine b sA' := by
-      intro a sA' e
-      cases hx : a.cont with
-      | false => exact hcl bp hbp _ _ _ _ hline e hx
-      | true =>
-        cases hy : a.hasChildren with
-        | true => exact hP.strictC bp hbp _ _ _ _ hline e hx hy
-        | false => exact hcn bp hbp _ _ _ _ hline e hx hy
-    refine P2.bind ((hP.co bp hbp node sA1 sB1 h hline hNL).withL
-      (R := fun _ sA' => (sA'.pc.opened = sA1.pc.opened ∧ sA1.r.line ≤ sA'.r.line) ∧ KeysEq sA1 sA' ∧ HasLine b sA')
-      (fun a sA' e => ⟨⟨bpContinue_opened _ _ _ _ _ e, bpContinue_line _ _ _ _ _ e⟩, hP.keysC bp hbp _ _ _ _ e,
-        hkeep a sA' e⟩))
-      (fun st st' sA2 sB2 ⟨⟨hst', h2⟩, ⟨ho2, hl2⟩, hk2, hline2⟩ => ?_)
+    have hq : QNL F b := by
+      obtain ⟨c, _, hlt⟩ := hline.1
+      rcases hNL with h0 | h0
+      · subst h0; simp at hlt
+      · exact .inr h0
+    refine P2.bind ((hP.co bp hbp node sA1 sB1 h hline.1 hNL).withL
+      (R := fun a sA' => (sA'.pc.opened = sA1.pc.opened ∧ sA1.r.line ≤ sA'.r.line) ∧ KeysEq sA1 sA' ∧
+        bpContinue bp node sA1 = .ok (a, sA'))
+      (fun a sA' e => ⟨⟨bpContinue_opened _ _ _ _ _ e, bpContinue_line _ _ _ _ _ e⟩, hP.keysC bp hbp _ _ _ _ e, e⟩))
+      (fun st st' sA2 sB2 ⟨⟨hst', h2⟩, ⟨ho2, hl2⟩, hk2, heq⟩ => ?_)
     subst hst'
     have hai2 : AI Cov sA2 := ⟨fun x hx => hai.1 x (ho2 ▸ hx), hk2.off hai.2⟩
     have hl02 : line0 ≤ sA2.r.line := Int.le_trans hl0 hl2
     by_cases hc : st'.cont = true
     · rw [if_pos hc, if_pos hc]
-      by_cases hh : (st'.hasChildren && i == lastIndex) = true
-      · rw [if_pos hh, if_pos hh, hbl]
-        refine P2.bind (hO node _ sA2 sB2 h2.w hai2 hline2) (fun res res' sA3 sB3 ⟨hres, hlim, hai3, hline3, _⟩ => ?_)
-        exact P2.pure ⟨rfl, hst, hlim, hai3, Int.le_trans hl02 hline3, fun _ => Nat.le_refl _⟩
-      · rw [if_neg hh, if_neg hh]
-        exact hrec sA2 sB2 h2 hai2 hline2 hl02 hl2
+      by_cases hch : st'.hasChildren = true
+      · have hline2 : HL b sA2 := hP.strictC bp hbp _ _ _ _ hline heq hc hch
+        by_cases hh : (st'.hasChildren && i == lastIndex) = true
+        · rw [if_pos hh, if_pos hh, hbl]
+          refine P2.bind (hO node _ sA2 sB2 h2.w hai2 hline2) (fun res res' sA3 sB3 ⟨hres, hlim, hai3, hline3, _⟩ => ?_)
+          exact P2.pure ⟨rfl, hst, hlim, hai3, Int.le_trans hl02 hline3, fun _ => Nat.le_refl _⟩
+        · rw [if_neg hh, if_neg hh]
+          exact hrec sA2 sB2 h2 hai2 hline2 hl02 hl2
+      · have hh : ¬ (st'.hasChildren && i == lastIndex) = true := by
+          intro hh; simp only [Bool.and_eq_true] at hh; exact hch hh.1
+        rw [if_neg hh, if_neg hh]
+        have hnc : ¬ bp.isContainer = true := fun hcn => hch (hcont hcn node sA1 sA2 st' heq hc)
+        have hnil : rest = [] := by
+          apply Classical.byContradiction
+          intro hne
+          exact hnc (hlf hne)
+        subst hnil
+        simp only [List.map_nil]
+        unfold lineLoop
+        exact P2.pure ⟨rfl, hst, h2.limbo hq, hai2, hl02, fun _ => Nat.le_refl _⟩
     · rw [if_neg hc, if_neg hc]
+      have hcf : st'.cont = false := by cases hx : st'.cont with
+        | true => exact absurd hx hc
+        | false => rfl
+      have hline2 : HL b sA2 := hcl bp hbp _ _ _ _ hline heq hcf
       exact ll_fall_p2 hP hO parent openedBlocks lastIndex i lnA lnB bla blb line0 h2 hai2 hline2 hst hl02 hbl
   · rw [if_neg hk, if_neg hk]
     exact ll_fall_p2 hP hO parent openedBlocks lastIndex i lnA lnB bla blb line0 h hai hline hst hl0 hbl
@@ -201,13 +218,14 @@ theorem ll_ri_p {r : Reader} {c c' : RCur} (h : RI b r c) (h' : RI b r c') : c.p
   omega
 
 theorem ll_lineLoop_p2 (hP : PSim F b Cov) (hq : QNL F b) (hNL : NL b) (hO : OpenBlocksSim F b Cov)
-    (hcl : ∀ bp, Cov bp → ∀ node s s' st, HasLine b s → bpContinue bp node s = .ok (st, s') → st.cont = false →
-      HasLine b s')
-    (hcn : ∀ bp, Cov bp → ∀ node s s' st, HasLine b s → bpContinue bp node s = .ok (st, s') → st.cont = true →
-      st.hasChildren = false → HasLine b s')
-    (parent : Nat) (openedBlocks : List Block) (lastIndex : Int) (hob : ∀ x ∈ openedBlocks, Cov x.bp) :
+    (hcl : ∀ bp, Cov bp → ∀ node s s' st, HL b s → bpContinue bp node s = .ok (st, s') → st.cont = false →
+      HL b s')
+    (parent : Nat) (openedBlocks : List Block) (lastIndex : Int) (hob : ∀ x ∈ openedBlocks, Cov x.bp)
+    (hleaf : ∀ pre be rest, openedBlocks = pre ++ be :: rest → rest ≠ [] → be.bp.isContainer = true)
+    (hcont : ∀ bp, Cov bp → bp.isContainer = true → ∀ node s s' (st : PState),
+      bpContinue bp node s = .ok (st, s') → st.cont = true → st.hasChildren = true) :
     ∀ (rest : List Block) (i : Int) (sa sb : List LineStat) (sA sB : St) (line0 : Int),
-      (∀ x ∈ rest, x ∈ openedBlocks) → SR F b sA sB → AI Cov sA → HasLine b sA → StatsRel F sa sb →
+      (∃ pre, openedBlocks = pre ++ rest) → SR F b sA sB → AI Cov sA → HL b sA → StatsRel F sa sb →
       line0 ≤ sA.r.line → 1 ≤ sA.r.line → i ≤ (sa.length : Int) →
       P2 (LQ F b Cov line0 (sa.length + min 1 rest.length))
         (lineLoop parent openedBlocks lastIndex rest i sa sA)
@@ -221,9 +239,12 @@ theorem ll_lineLoop_p2 (hP : PSim F b Cov) (hq : QNL F b) (hNL : NL b) (hO : Ope
     exact P2.pure ⟨rfl, hst, h.limbo hq, hai, hl0, fun _ => by simp⟩
   | cons be rest ih =>
     intro i sa sb sA sB line0 hrest h hai hl hst hl0 h1 hi
+    obtain ⟨pre, hpre⟩ := hrest
+    have hmem : be ∈ openedBlocks := by rw [hpre]; simp
     simp only [List.map_cons]
     rw [ll_lineLoop_cons, ll_lineLoop_cons]
-    obtain ⟨c0, hc0, hp0⟩ := hl
+    have hts0 : TS b sA := hl.2
+    obtain ⟨c0, hc0, hp0⟩ := hl.1
     refine P2.bind ((peekLine_core h.rd (.inr ⟨c0, hc0, hp0⟩)).withL
       (R := fun _ sA' => sA.r.line ≤ sA'.r.line ∧ RI b sA'.r c0)
       (fun a sA' e => ⟨peekLine_lg (k := sA.r.line) sA a sA' (Int.le_refl _) e, ?_⟩))
@@ -246,7 +267,7 @@ theorem ll_lineLoop_p2 (hP : PSim F b Cov) (hq : QNL F b) (hNL : NL b) (hO : Ope
       cases hv
     | some l =>
       simp only
-      have hline : HasLine b sA1 := ⟨c, hc, hp⟩
+      have hline : HL b sA1 := ⟨⟨c, hc, hp⟩, c0, hc01, hts0.tsafe hc0 rfl⟩
       refine P2.bind (position_p2 hs1) (fun p q sA2 sB2 ⟨hp', hq, e1, e2⟩ => ?_)
       subst e1 e2 hq hp'
       have hst' : StatsRel F (sa ++ [{ lineNum := sA2.r.line, level := i, isBlank := isBlank l }])
@@ -257,9 +278,10 @@ theorem ll_lineLoop_p2 (hP : PSim F b Cov) (hq : QNL F b) (hNL : NL b) (hO : Ope
           isBlankLine (sA2.r.line - 1) i (sa ++ [{ lineNum := sA2.r.line, level := i, isBlank := isBlank l }]) := by
         rw [show sA2.r.line + F.dl - 1 = (sA2.r.line - 1) + F.dl by omega]
         exact isBlankLine_shift hst' (sA2.r.line - 1) i (by omega) (by simp; omega)
-      have hrest' : ∀ x ∈ rest, x ∈ openedBlocks := fun x hx => hrest x (List.mem_cons_of_mem _ hx)
-      refine (ll_body_p2 hP hNL hO hcl hcn parent openedBlocks lastIndex be.bp be.node rest i sA2.r.line
-        (sA2.r.line + F.dl) _ _ line0 hs1 hai1 hst' (by omega) hbl (hob be (hrest be List.mem_cons_self)) hline
+      have hrest' : ∃ pre', openedBlocks = pre' ++ rest := ⟨pre ++ [be], by rw [hpre]; simp⟩
+      refine (ll_body_p2 hP hNL hO hcl parent openedBlocks lastIndex be.bp be.node rest i sA2.r.line
+        (sA2.r.line + F.dl) _ _ line0 hs1 hai1 hst' (by omega) hbl (hob be hmem) hline
+        (hleaf pre be rest hpre) (hcont be.bp (hob be hmem))
         (fun sA' sB' h' hai' hline' hl0' hl' => ?_)).mono (fun x y sA' sB' hq => ll_LQ_mono (by simp) hq)
       exact (ih (i + 1) _ _ sA' sB' line0 hrest' h' hai' hline' hst' hl0' (by omega) (by simp; omega)).mono
         (fun x y sA' sB' hq => ll_LQ_mono (by omega) hq)
@@ -271,19 +293,20 @@ def LineQ (F : Frame) (b : Bytes) (Cov : BP → Prop) (sA : St) (rest : List Blo
     (x.1 = LineOutcome.next → rest ≠ [] → x.2 ≠ [])
 
 theorem lineLoop_p2 (hP : PSim F b Cov) (_hF : F.OK) (hq : QNL F b) (hNL : NL b) (hO : OpenBlocksSim F b Cov)
-    (hcl : ∀ bp, Cov bp → ∀ node s s' st, HasLine b s → bpContinue bp node s = .ok (st, s') → st.cont = false →
-      HasLine b s')
-    (hcn : ∀ bp, Cov bp → ∀ node s s' st, HasLine b s → bpContinue bp node s = .ok (st, s') → st.cont = true →
-      st.hasChildren = false → HasLine b s')
-    (parent : Nat) (openedBlocks : List Block) (lastIndex : Int) (hob : ∀ x ∈ openedBlocks, Cov x.bp) :
+    (hcl : ∀ bp, Cov bp → ∀ node s s' st, HL b s → bpContinue bp node s = .ok (st, s') → st.cont = false →
+      HL b s')
+    (parent : Nat) (openedBlocks : List Block) (lastIndex : Int) (hob : ∀ x ∈ openedBlocks, Cov x.bp)
+    (hleaf : ∀ pre be rest, openedBlocks = pre ++ be :: rest → rest ≠ [] → be.bp.isContainer = true)
+    (hcont : ∀ bp, Cov bp → bp.isContainer = true → ∀ node s s' (st : PState),
+      bpContinue bp node s = .ok (st, s') → st.cont = true → st.hasChildren = true) :
     ∀ (rest : List Block) (i : Int) (sa sb : List LineStat) (sA sB : St),
-      (∀ x ∈ rest, x ∈ openedBlocks) → SR F b sA sB → AI Cov sA → HasLine b sA → StatsRel F sa sb →
+      (∃ pre, openedBlocks = pre ++ rest) → SR F b sA sB → AI Cov sA → HL b sA → StatsRel F sa sb →
       1 ≤ sA.r.line → i ≤ (sa.length : Int) →
       P2 (LineQ F b Cov sA rest)
         (lineLoop parent openedBlocks lastIndex rest i sa sA)
         (lineLoop (F.ι parent) (openedBlocks.map (shB F)) lastIndex (rest.map (shB F)) i sb sB) := by
   intro rest i sa sb sA sB hrest h hai hl hst h1 hi
-  refine (ll_lineLoop_p2 hP hq hNL hO hcl hcn parent openedBlocks lastIndex hob rest i sa sb sA sB sA.r.line hrest h hai hl
+  refine (ll_lineLoop_p2 hP hq hNL hO hcl parent openedBlocks lastIndex hob hleaf hcont rest i sa sb sA sB sA.r.line hrest h hai hl
     hst
     (Int.le_refl _) h1 hi).mono (fun x y sA' sB' ⟨q1, q2, q3, q4, q5, q6⟩ => ⟨q1, q2, q3, q4, q5, fun e hne => ?_⟩)
   have hlen := q6 e
